@@ -171,8 +171,9 @@ func pvState(pv *sipsp.PHdrVals) uint32 {
 // ---- header block ----
 
 type headersObj struct {
-	hl sipsp.HdrLst
-	pv *sipsp.PHdrVals
+	hl  sipsp.HdrLst
+	pv  *sipsp.PHdrVals
+	alt []sipsp.PFromBody // C12: the caller's second contact array (Init alternates between two)
 }
 
 func (o *headersObj) Call(buf []byte, offs int) (int, sipsp.ErrorHdr) {
@@ -367,7 +368,8 @@ func (o *uriParamsObj) Call(buf []byte, offs int) (int, sipsp.ErrorHdr) {
 }
 func (o *uriParamsObj) View(v *view.Vec, op view.MsgOpt) {
 	view.URIParams(v, &o.l, op.Opt)
-	v.I("sum(vNo)", int64(o.vno))
+	// (the second return value - "number of values parsed" - is not part of any statement: whether
+	// it counts this call or the whole list is open, so it is kept out of the compared view)
 }
 func (o *uriParamsObj) Reset() { o.l.Reset(); o.vno = 0 }
 func (o *uriParamsObj) setEndInput(on bool) {
@@ -397,7 +399,8 @@ func (o *uriHdrsObj) Call(buf []byte, offs int) (int, sipsp.ErrorHdr) {
 }
 func (o *uriHdrsObj) View(v *view.Vec, op view.MsgOpt) {
 	view.URIHdrs(v, &o.l, op.Opt)
-	v.I("sum(vNo)", int64(o.vno))
+	// (the second return value - "number of values parsed" - is not part of any statement: whether
+	// it counts this call or the whole list is open, so it is kept out of the compared view)
 }
 func (o *uriHdrsObj) Reset() { o.l.Reset(); o.vno = 0 }
 func (o *uriHdrsObj) setEndInput(on bool) {
